@@ -5,8 +5,8 @@ package c10
 import (
 	"fmt"
 	"go/types"
-	"os"
 	"math/big"
+	"os"
 	"sort"
 	"strings"
 
@@ -136,7 +136,11 @@ func (k *checker) meshRules() {
 			// the pool-size parameter = the spawn loop bound
 			pa := &poolAnalysis{k: k, fn: fn}
 			sizeIdx = pa.sizeParamIndex()
-			k.wrapper(w, fn, sizeIdx, out)
+			if sizeIdx < 0 {
+				c.R.Undecide("SEQ-1", p.FuncName(w)+":wrapper", p.Pos(w.Pos()), "pool-size parameter of "+fn.Name()+" not identified (spawn loop not recognised)")
+			} else {
+				k.wrapper(w, fn, sizeIdx, out)
+			}
 			wrappers++
 		} else {
 			c.R.Undecide("SEQ-1", p.FuncName(fn)+":wrapper", p.Pos(fn.Pos()), "no "+wn+"() wrapper found for the pool-size method")
